@@ -184,6 +184,13 @@ def g_jdn(r, depth, symok=True):
             return bytes(r.choice([97, 98, 32, 0, 10, 13, 9, 34, 92, 255, 127, 27, 0xc3, 0xa9, 35, 96, 1]) for _ in range(n))
         if k < 0.65:
             return Buf(bytes(r.choice([97, 0, 255, 34, 92, 10]) for _ in range(r.randrange(0, 4))))
+        if k < 0.9 and r.random() < 0.4:
+            # names drawn from an alphabet of reader-significant characters: whatever %j prints must read back as the same symbol / keyword, or %j must refuse
+            alpha = [b":", b"-", b"+", b".", b"0", b"1", b"9", b"e", b"x", b"r", b"_", b"&", b"a", b"n", b"@", b"#", b"~", b"'", b";", b",", b"|", b"(", b" ", b"\xc3\xa9", b"\xff", b"\x00", b"\\", b"\""]
+            name = b"".join(r.choice(alpha) for _ in range(r.randrange(0, 5)))
+            if k < 0.78 or not symok:
+                return Kw(name)
+            return Sym(name)
         if k < 0.78:
             return Kw(r.choice(["a", "abc", "a-b", "+", "k1", "é", "<=", "nil", "1"]).encode())
         if k < 0.9 and symok:
